@@ -68,3 +68,9 @@ THEOREMS = list(THEOREMS) + ['SRC_copy_sample_step', 'SRC_copy_sample']
 # Holds exactly the hand model's get_subset result (Props/SRCgetsubset.v, success-case form)
 COQ_PROPS = list(COQ_PROPS) + ['Props/SRCgetsubset.v']
 THEOREMS = list(THEOREMS) + ['SRC_get_subset_content', 'SRC_get_subset']
+
+
+# source tie, end to end (integrator): Props/SRCtop.v composes the translated get_subset / from_sequence with Link.Abs.to_content:
+# for valid nondegenerate extensions the code's method on to_content e returns a content that Holds exactly the hand model's result
+COQ_PROPS = list(COQ_PROPS) + ['Props/SRCtop.v']
+THEOREMS = list(THEOREMS) + ['SRC_top_get_subset', 'SRC_top_get_subset_valid', 'SRC_sideb_sound']
